@@ -14,8 +14,9 @@ verus! {
 pub struct LabeledTimeout { pub _p: u8 }
 pub struct Timeouts { pub _p: u8 }
 impl Timeouts {
+    pub uninterp spec fn state_transition_v(&self) -> LabeledTimeout;
     #[verifier::external_body]
-    pub fn state_transition(&self) -> (r: LabeledTimeout) { unimplemented!() }
+    pub fn state_transition(&self) -> (r: LabeledTimeout) ensures r == self.state_transition_v() { unimplemented!() }
     #[verifier::external_body]
     pub async fn loop_tick(&self) { unimplemented!() }
 }
@@ -131,7 +132,7 @@ impl MainDev {
     // state-transition timeout and terminates
 @loop 0
     invariant
-        __dl.active, num_subdevices == self.n,
+        __dl.active, num_subdevices == self.n, __dl.t@ == self.timeouts.state_transition_v(),
     ensures
         __brk0 is Ok ==> exists|st: AlControl| #[trigger] al_status_read(Reads::Brd { address: 0, register: 0x0130 }, Some(self.n), st)
             && !st.error && st.state == desired_state,
@@ -186,7 +187,7 @@ impl<'a> SubDeviceRef<'a> {
             && st.state == desired_state,
 @loop 0
     invariant
-        __dl.active,
+        __dl.active, __dl.t@ == self.maindevice.timeouts.state_transition_v(),
     ensures
         __brk0 is Ok ==> exists|st: AlControl| #[trigger] al_status_read(Reads::Fprd { address: self.configured_address, register: 0x0130 }, None, st)
             && st.state == desired_state,
